@@ -102,7 +102,10 @@ def finding_for(findings, prop, harness_name, obligation):
     for f in findings:
         if f.get('property') != prop or not str(f.get('status', '')).startswith('open'):
             continue
-        if f.get('harness') not in (harness_name, base):
+        if 'harness_regex' in f:
+            if not re.search(f['harness_regex'], harness_name):
+                continue
+        elif f.get('harness') not in (harness_name, base):
             continue
         if f.get('obligation') == obligation:
             return f
@@ -157,6 +160,9 @@ def main(argv=None):
     if not hs:
         print('no harness serves property', a.prop)
         return 3
+    import shutil
+    if not a.only:
+        shutil.rmtree(os.path.join(ROOT, 'replays', a.prop), ignore_errors=True)
     ctx = mp.get_context('fork')
     with ctx.Pool(min(a.jobs, len(hs))) as pool:
         outs = pool.map(run_harness, [(h.name, a.tier) for h in hs], chunksize=1)
@@ -202,10 +208,7 @@ def main(argv=None):
                 f = finding_for(findings, a.prop, h.name, r['name'])
                 if f is not None:
                     n_known += 1
-                    key = (h.name, r['name'])
-                    if key not in seen_refuted:
-                        known_lines.append('KNOWN-FINDING: property=%s %s [%s#%s]' % (a.prop, f.get('what', ''), h.name, r['name']))
-                    seen_refuted.add(key)
+                    known_lines.append('KNOWN-FINDING: property=%s %s [obligation %s]' % (a.prop, f.get('what', ''), r['name']))
                 else:
                     key = (h.name, r['name'])
                     if key not in seen_refuted:
